@@ -134,16 +134,41 @@ func newRunner() h.CaseRunner {
 	return &runner{dir: dir, path: filepath.Join(dir, fileName)}
 }
 
+// bounded runs f with a deadline: a reader whose lock was left held by a panicking
+// call (possible only in a mutated tree) must not block the harness in Close.
+func bounded(f func()) bool {
+	done := make(chan struct{})
+	go func() {
+		defer func() { recover(); close(done) }()
+		f()
+	}()
+	select {
+	case <-done:
+		return true
+	case <-time.After(3 * time.Second):
+		return false
+	}
+}
+
+func (c *runner) closeReader() bool {
+	r, bd := c.r, c.bd
+	c.r, c.bd = nil, nil
+	if r == nil {
+		return true
+	}
+	return bounded(func() {
+		if bd != nil {
+			bd.Rollback()
+		}
+		r.Close()
+	})
+}
+
 func (c *runner) Close() {
-	if c.bd != nil {
-		c.bd.Rollback()
-		c.bd = nil
-	}
-	if c.r != nil {
-		c.r.Close()
-	}
+	c.closeReader()
 	if c.w != nil {
-		c.w.Close()
+		w := c.w
+		bounded(func() { w.Close() })
 	}
 	os.RemoveAll(c.dir)
 }
@@ -497,23 +522,17 @@ func (c *runner) Op(t []string) string {
 		if c.r == nil {
 			return "err:closed"
 		}
-		if c.bd != nil {
-			c.bd.Rollback()
-			c.bd = nil
+		if !c.closeReader() {
+			return "err:close-blocked"
 		}
-		c.r.Close()
-		c.r = nil
 		return "ok"
 	case "reopen":
 		if c.r == nil {
 			return "err:closed"
 		}
-		if c.bd != nil {
-			c.bd.Rollback()
-			c.bd = nil
+		if !c.closeReader() {
+			return "err:close-blocked"
 		}
-		c.r.Close()
-		c.r = nil
 		return c.open()
 	}
 	if strings.HasPrefix(t[0], "ts.") {
